@@ -30,7 +30,7 @@ ATTACKS = [  # (cfg, what the weakened mechanism lacks)
 
 def _tier(tier):
     if tier == "quick":
-        return dict(mc="Registry_quick.cfg", mc_stop=150, cover="Registry_cover.cfg", leaves=260, edges=60,
+        return dict(mc="Registry_quick.cfg", mc_stop=150, cover="Registry_cover_quick.cfg", leaves=260, edges=60,
                     sim=("Registry_sim.cfg", 160, 16), record_runs=60)
     return dict(mc="Registry_thorough.cfg", mc_stop=1500, cover="Registry_cover.cfg", leaves=4000, edges=1500,
                 sim=("Registry_sim.cfg", 3000, 18), record_runs=1500)
@@ -110,37 +110,42 @@ def run(tier, seed):
     wd = os.path.join(vlib.WORK, PROP)
     os.makedirs(wd, exist_ok=True)
 
-    with concurrent.futures.ThreadPoolExecutor(max_workers=3) as ex:
+    with concurrent.futures.ThreadPoolExecutor(max_workers=4) as ex:
+        # 1. exhaustive model checking of the faithful spec: every sequence, every batching (in the background)
+        f_mc = ex.submit(vlib.tlc, MODULE, T["mc"], None, 8, T["mc_stop"] + 600, T["mc_stop"])
         f_att = ex.submit(attack_traces, ATTACKS, PROP)
         f_sim = ex.submit(simulate, T["sim"][0], T["sim"][1], T["sim"][2], seed, "sim")
         f_cov = ex.submit(vlib.tlc_dump_graph, MODULE, T["cover"], None, 1800, None, 4)
-        # 1. exhaustive model checking of the faithful spec: every sequence, every batching
-        r = vlib.tlc(MODULE, T["mc"], workers=8, timeout=T["mc_stop"] + 600, stop_after=T["mc_stop"])
+        # 2. behaviours: state-graph cover (seeded sample), simulation, attack traces
+        rg, nodes, edges, inits = f_cov.result()
+        log("[C11] +%.0fs cover graph dumped" % (time.time() - t0))
+        if not vlib.expect_tlc_ok(rg, T["cover"]):
+            raise vlib.MachineryError("cover config violates %s" % rg.violation)
+        behs, gstat = sample_graph(nodes, edges, inits, seed, T["leaves"], T["edges"])
+        del nodes, edges
+        cov["cover_graph"] = gstat
+        states, transitions = rg.distinct, rg.generated
+        rs, sbehs = f_sim.result()
+        cov["sim_behaviours"] = len(sbehs)
+        transitions += rs.generated
+        log("[C11] +%.0fs simulation done" % (time.time() - t0))
+        attack_behs = f_att.result()
+        cov["attack_traces"] = len(attack_behs)
+        log("[C11] +%.0fs attack traces done" % (time.time() - t0))
+        inp = os.path.join(wd, "behaviours.ndjson")
+        vlib.write_ndjson(inp, behs + sbehs + attack_behs)
+        outp = os.path.join(wd, "replay_result.json")
+        vlib.run_driver(binr, ["-mode", "replay", "-in", inp, "-out", outp, "-workers", "6"], timeout=3000)
+        log("[C11] +%.0fs replay done" % (time.time() - t0))
+        r = f_mc.result()
         if not vlib.expect_tlc_ok(r, T["mc"]):
             raise vlib.MachineryError("faithful Registry spec violates %s (model error, not a verdict):\n%s" %
                                       (r.violation, json.dumps(vlib.tlaval.plain([s.get("act") for s in r.trace]))))
         cov["configs"].append({"cfg": T["mc"], "distinct": r.distinct, "generated": r.generated, "depth": r.depth,
                                "exhaustive": r.finished, "wall_s": round(r.wall, 1)})
         log("[C11] TLC %s: %d distinct / %d generated, finished=%s, %.1fs" % (T["mc"], r.distinct, r.generated, r.finished, r.wall))
-        states, transitions = r.distinct, r.generated
-        # 2. behaviours: state-graph cover (seeded sample), simulation, attack traces
-        rg, nodes, edges, inits = f_cov.result()
-        if not vlib.expect_tlc_ok(rg, T["cover"]):
-            raise vlib.MachineryError("cover config violates %s" % rg.violation)
-        behs, gstat = sample_graph(nodes, edges, inits, seed, T["leaves"], T["edges"])
-        del nodes, edges
-        cov["cover_graph"] = gstat
-        states += rg.distinct
-        transitions += rg.generated
-        rs, sbehs = f_sim.result()
-        cov["sim_behaviours"] = len(sbehs)
-        transitions += rs.generated
-        attack_behs = f_att.result()
-    cov["attack_traces"] = len(attack_behs)
-    inp = os.path.join(wd, "behaviours.ndjson")
-    vlib.write_ndjson(inp, behs + sbehs + attack_behs)
-    outp = os.path.join(wd, "replay_result.json")
-    vlib.run_driver(binr, ["-mode", "replay", "-in", inp, "-out", outp, "-workers", "6"], timeout=3000)
+        states += r.distinct
+        transitions += r.generated
     res = json.load(open(outp))
     collect(res, verdict, PROP, inp, "replay")
     cov["replayed_behaviours"] = res["behaviours"]
@@ -158,6 +163,7 @@ def run(tier, seed):
     vlib.run_driver(binr, ["-mode", "record", "-trace", tr, "-out", outr, "-seed", str(seed), "-runs", str(T["record_runs"]),
                            "-workers", "6"], timeout=3000)
     res2 = json.load(open(outr))
+    log("[C11] +%.0fs recorded" % (time.time() - t0))
     collect(res2, verdict, PROP, None, "record")
     accepted, consumed, nlines, rt = vlib.tlc_validate_trace("RegistryTrace", "RegistryTrace.cfg", tr, timeout=2400)
     cov["recorded_chains"] = res2["behaviours"]
@@ -170,7 +176,9 @@ def run(tier, seed):
         log("[C11] recorded trace REJECTED by the spec at line %d: %s" % (consumed + 1, bad[:600]))
         cov["divergences"] += 1
         cov["trace_rejected_at"] = {"line": consumed + 1, "event": bad[:2000]}
+    log("[C11] +%.0fs trace validated" % (time.time() - t0))
     cov["binding_selftest"] = _selftest(tr, wd)
+    log("[C11] +%.0fs self-test done" % (time.time() - t0))
 
     rc = verdict.report()
     if cov["divergences"] and rc == 0:
